@@ -589,7 +589,7 @@ func report(prop, tier string, seed int64, meta propMeta, all []result, crashes 
 	sort.Slice(all, func(i, j int) bool { return all[i].Case < all[j].Case })
 	fps := map[string]bool{}
 	events := map[string]int{}
-	var samples []any
+	samples := []any{}
 	own := 0
 	cross := map[string]int{}
 	knownHit := map[string]int{}
